@@ -160,6 +160,12 @@ func c01Findings() []c01Finding {
 		{ID: "FK4", Repro: prog.History{}, Match: func(h prog.History, engine string, o Obs, src string) bool {
 			return engine == "vm" && o.Root == rootUnexpected && strings.Contains(o.Err, "cannot find global declaration") && strings.Contains(src, " as ")
 		}},
+		{ID: "FF15", Repro: reproFF15, Match: func(h prog.History, engine string, o Obs, src string) bool {
+			return o.Root == "runtime.errorString" && strings.Contains(o.Err, "nil pointer dereference") && strings.Contains(src, ".map(") && strings.Contains(src, "&AnyResource")
+		}},
+		{ID: "FF16", Repro: reproFF16, Match: func(h prog.History, engine string, o Obs, src string) bool {
+			return o.Root == rootUnexpected && strings.Contains(o.Err, "unsupported location: stdlib.FlowLocation")
+		}},
 		{ID: "FG1", Repro: prog.History{}, Match: func(h prog.History, engine string, o Obs, src string) bool {
 			// group storage/caps (FG1 = FK2): contract added and removed in one transaction orphans its slabs
 			return o.Root == "runtime.UnreferencedRootSlabsError" && strings.Contains(src, ".contracts.add(") && strings.Contains(src, ".contracts.remove(")
@@ -361,6 +367,21 @@ var reproFF9 = prog.History{Steps: []prog.Step{{Kind: prog.Script, Args: []strin
 var reproFF11 = script(`
 access(all) contract A { access(all) struct S {} }
 access(all) fun main() { log(A.S()) }`)
+
+var reproFF15 = script(`
+access(all) resource R {}
+access(all) fun main() {
+    var refArray: [&AnyResource] = []
+    var arr: @[AnyResource] <- []
+    var opt1: @R? <- create R()
+    var disguised: @AnyResource <- opt1
+    refArray.append(&disguised as &AnyResource)
+    arr.append(<- disguised)
+    let m = refArray.map(fun (x: &AnyResource): Int { return 1 })
+    destroy arr
+}`)
+
+var reproFF16 = script(`access(all) fun main(): Int { let a = [CompositeType("flow.AccountContractAdded")!]; return a.length }`)
 
 var reproFF8 = script(`access(all) fun main(): Type? { return CompositeType("Foo") }`)
 
